@@ -267,6 +267,15 @@ fn run_for_class<P: Prop>(p: &P, case: &P::Case, want: &Violation) -> Option<(Vi
 pub fn minimise<P: Prop>(p: &P, case: &P::Case, v: &Violation, traces: &[crate::sched::Trace], budget_s: f64) -> (P::Case, Violation, u64, u64) {
     let t0 = Instant::now();
     let mut runs = 0u64;
+    // candidates that hang must not cost a full watchdog period each
+    crate::sched::WATCHDOG_OVERRIDE_S.store(crate::sched::watchdog_secs().min(15), Ordering::Relaxed);
+    struct Reset;
+    impl Drop for Reset {
+        fn drop(&mut self) {
+            crate::sched::WATCHDOG_OVERRIDE_S.store(0, Ordering::Relaxed);
+        }
+    }
+    let _reset = Reset;
     let mut cur = p.with_replay(case, traces);
     let mut cur_v = v.clone();
     let mut cur_hash = 0u64;
